@@ -4,7 +4,7 @@ PROPS[pid]["rules"] = [(rule id, floor of decided instances, selector over insta
 Floors are the numbers counted on the tree the rules were written against: a rule that suddenly
 matches fewer sites is a broken check (exit 2), never a silent pass.
 """
-from . import wf, dp, dt, he, gl, ts, ee, sl, wp, fs, ic, nb, im, rn, mp, sp, ms, cp, sh, st, rh, vo, wi, law, cn, pr, dtr, sa, vx
+from . import lt, td, pm, hs, ws, tf, ec, se, wf, dp, dt, he, gl, ts, ee, sl, wp, fs, ic, nb, im, rn, mp, sp, ms, cp, sh, st, rh, vo, wi, law, cn, pr, dtr, sa, vx
 
 
 def has(*subs):
@@ -13,6 +13,17 @@ def has(*subs):
 
 def hasnot(*subs):
     return lambda r: not any(s in r["key"] for s in subs)
+
+
+def vo_sel(*mods, only_label_order=False):
+    """VO instances for a property: the index-space instances (unless only_label_order) plus the label-order
+    instances of the named modules (and the zero-count control instance)"""
+    def sel(r):
+        k = r["key"]
+        if "label-order" in k:
+            return "none-outside" in k or any(m in k for m in mods)
+        return not only_label_order and "::sdd::" not in k and ("force_order" not in k or "force_order" in mods)
+    return sel
 
 
 RULES = {
@@ -45,6 +56,14 @@ RULES = {
     "DTR": {"run": dtr.run},
     "SA": {"run": sa.run},
     "VX": {"run": vx.run},
+    "LT": {"run": lt.run},
+    "TD": {"run": td.run},
+    "PM": {"run": pm.run},
+    "HS": {"run": hs.run},
+    "WS": {"run": ws.run},
+    "TF": {"run": tf.run},
+    "EC": {"run": ec.run},
+    "SE": {"run": se.run},
 }
 
 BDD_T = ("BddNode", "BddPtr")
@@ -56,7 +75,7 @@ PROPS = {
         "rules": [("CP", 19, has("builder::bdd::", "repr::bdd::BddPtr", "cache::all_app", "cache::lru_app")),
                   ("IM", 14, has("IM2", "IM3")), ("HE", 2, has("BddNode:scratch", "BddNode:fields")),
                   ("DT", 7, has("BddPtr", "BottomUpBuilder::or:", "BottomUpBuilder::compose:")),
-                  ("FS", 2, has("or_lst", "and_lst")), ("ST", 2, None), ("GL", 1, has("GL6")), ("VO", 14, None),
+                  ("FS", 2, has("or_lst", "and_lst")), ("ST", 2, None), ("GL", 1, has("GL6")), ("VO", 14, vo_sel("::bdd::", "var_order")),
                   ("SH", 5, has("RobddBuilder", "BottomUpBuilder<repr::bdd::BddPtr> for T>::var"))],
         "explanation": "Six structural clauses of BDD operation correctness. (e) the standard-triple normalisation Ite::new "
                        "preserves ite(f,g,h) on every path for every truth assignment (ST: exhaustive abstract interpretation over "
@@ -74,7 +93,8 @@ PROPS = {
         "level": "other",
         "rules": [("CP", 32, has("builder::sdd::", "repr::sdd::SddPtr")), ("DT", 7, has("SddPtr", "BottomUpBuilder::or:", "BottomUpBuilder::compose:")),
                   ("IM", 14, has("IM2", "IM3")), ("HE", 4, has("BinarySDD:scratch", "SddOr:scratch", "BinarySDD:fields", "SddOr:fields")),
-                  ("ST", 2, None), ("SH", 1, has("SddPtr> for T>::condition")), ("SA", 12, None), ("VX", 9, None)],
+                  ("ST", 2, None), ("SH", 1, has("SddPtr> for T>::condition")), ("SA", 12, None), ("VX", 9, None),
+                  ("VO", 1, vo_sel("::sdd::", only_label_order=True))],
         "explanation": "Complement coherence of every place the SDD code touches subs/children of a possibly complemented node "
                        "(and_sub_desc, and_prime_desc, and_cartesian, condition, SddPtr::{low,high,neg,is_neg}): operands of "
                        "and/ite/..., elements of result nodes and traversal recursion denote the same thing for a regular and "
@@ -88,7 +108,9 @@ PROPS = {
         "rules": [("CP", 4, has("decision_nnf::")), ("TS", 7, has("TS-BAL")), ("DP", 3, has("topdown")),
                   ("GL", 1, has("component-cache")), ("SP", 10, has("SP1")),
                   ("SH", 6, has("decision_nnf::")), ("RN", 7, has("RN4")),
-                  ("WP", 3, has("update_hash_and_sat_set")), ("PR", 1, has("SATSolver"))],
+                  ("WP", 3, has("update_hash_and_sat_set")), ("PR", 1, has("SATSolver")),
+                  ("TD", 4, None), ("VO", 1, vo_sel("decision_nnf", only_label_order=True)),
+                  ("EC", 4, None)],
         "explanation": "Conditioning of a possibly complemented d-DNNF pointer is sign-coherent (CP on cond_helper: return "
                        "contract, node-constructor parity, comparison parity); decide/pop balance on every path of topdown_h "
                        "(TS-BAL: one pop after SAT/Unknown, none after UNSAT, none before the first decide); UNSAT and an "
@@ -101,7 +123,7 @@ PROPS = {
         "level": "other",
         "rules": [("DP", 8, has("unsmoothed_wmc", "evaluate")), ("CP", 10, has("fold", "bdd_fold_h", "BddPtr::low", "BddPtr::high")),
                   ("MS", 13, None), ("FS", 7, has("fold", "wmc", "assignment_weight", "bb_ub", "marginal_map")),
-                  ("SH", 3, has("SH5")), ("LAW", 55, None)],
+                  ("SH", 3, has("SH5")), ("LAW", 55, None), ("LT", 1, has("WmcParams"))],
         "explanation": "The generic count is the homomorphism Or->+, And->*, True->1, False->0, Lit->weight by polarity, and "
                        "evaluate encodes an assignment as (low=!b, high=b) (DP); the folds hand effective children to the "
                        "callback/recursion (CP on BddPtr::fold, bdd_fold_h, SddPtr::fold); the dual-polarity memo is written and "
@@ -132,7 +154,7 @@ PROPS = {
         "level": "other",
         "rules": [("CP", 4, has("cached_semantic_hash:sign", "check_cached_hash_and_neg")), ("IM", 3, has("IM5:semantic_hash")),
                   ("NB", 33, None), ("IC", 4, has("create_semantic_hash_map")), ("GL", 5, has("GL7")),
-                  ("CP", 3, has("decision_nnf::builder::DecisionNNFBuilder::cond_helper"))],
+                  ("CP", 3, has("decision_nnf::builder::DecisionNNFBuilder::cond_helper")), ("SE", 4, None)],
         "explanation": "Hash values follow the pointer's sign (complemented -> negate(hash of the regular pointer)) and a node "
                        "found under the negated hash is returned complemented, in both semantic builders (CP-hash); the per-node "
                        "hash cache has one writer (IM5); field arithmetic stays in range for every exported prime (NB); hash "
@@ -143,7 +165,7 @@ PROPS = {
         "level": "other",
         "rules": [("GL", 2, has("GL3")), ("TS", 3, has("TS-OCC")), ("HE", 4, has(*BDD_T)),
                   ("RN", 4, has("RN1", "RN2")), ("IM", 37, has("IM3", "IM4", "IM2")), ("RH", 14, None),
-                  ("VO", 14, None)],
+                  ("VO", 14, vo_sel("::bdd::", "var_order"))],
         "explanation": "Structural necessary conditions of ROBDD canonicity: the unique table returns a stored node only "
                        "for an equal request (hash equal AND (by-hash OR structural equality), GL3) and must be able to "
                        "find every stored node (only occupied elements are re-inserted, re-homed with probe length 0, "
@@ -178,7 +200,9 @@ PROPS = {
     },
     "C09": {
         "level": "other",
-        "rules": [("WP", 17, has("unit_prop")), ("TS", 5, has("TS-STK")), ("WI", 1, None), ("PR", 1, has("SATSolver"))],
+        "rules": [("WP", 17, has("unit_prop")), ("TS", 5, has("TS-STK")), ("WI", 1, None), ("PR", 1, has("SATSolver")),
+                  ("LT", 2, has("UnitPropagate")), ("PM", 5, has("::get:", "::unset:", "::is_set:", "::lit_implied:", "::lit_neg_implied:")),
+                  ("WS", 32, None), ("TF", 1, None), ("EC", 4, None)],
         "explanation": "Every pos/neg watch-list / occurrence-table access in unit_prop.rs is selected by the polarity of "
                        "the same literal that indexes it, insertions go to the literal's own table, reads keyed by one "
                        "literal use one side (WP); SATSolver::decide pushes exactly one state on non-UNSAT paths and none on "
@@ -197,7 +221,8 @@ PROPS = {
     },
     "C14": {
         "level": "other",
-        "rules": [("IC", 13, hasnot("repr::cnf::Cnf::from_dimacs")), ("VO", 15, None), ("DTR", 5, None), ("VX", 9, None)],
+        "rules": [("IC", 13, hasnot("repr::cnf::Cnf::from_dimacs")), ("VO", 15, vo_sel("var_order", "vtree", "dtree", "force_order")), ("DTR", 5, None), ("VX", 9, None),
+                  ("LT", 2, has("VarOrder", "VTreeManager"))],
         "explanation": "Dimension analysis (Index / Count / OneBased): every function called num_vars returns a count, every "
                        "num_vars field is initialised with a count, label-indexed table sizes are counts (IC). Not decided: "
                        "permutation-ness of heuristic orders, dtree cutsets, LCA / in-order index arithmetic.",
@@ -206,7 +231,8 @@ PROPS = {
         "level": "other",
         "rules": [("EE", 1, None), ("IC", 5, has("repr::cnf::")), ("WP", 2, has("repr::cnf::")),
                   ("FS", 3, has("repr::cnf::", "assignment_weight")), ("CN", 2, None),
-                  ("PR", 1, has("CnfHasher"))],
+                  ("PR", 1, has("CnfHasher")), ("LT", 2, has("CnfHasher")),
+                  ("PM", 9, None), ("HS", 4, None)],
         "explanation": "Brute-force counting leaves its enumeration loop only when the assignment iterator is exhausted (EE); "
                        "Cnf's variable count is max label + 1 (IC); the residual hasher's pos/neg tables are selected and "
                        "indexed by the same literal (WP); counting accumulators are seeded with zero/one (FS). Not decided: "
